@@ -104,9 +104,10 @@ func H_C18_tcp_message() {
 
 // scripted stream for the TCP connection handler: 2-byte big-endian length framing in both directions
 type c18conn struct {
-	in  []byte
-	pos int
-	out []byte
+	in    []byte
+	pos   int
+	out   []byte
+	chunk int // > 0: a Read delivers at most this many bytes (TCP segmentation)
 }
 
 type c18addr struct{}
@@ -118,7 +119,11 @@ func (c *c18conn) Read(p []byte) (int, error) {
 	if c.pos >= len(c.in) {
 		return 0, io.EOF
 	}
-	n := copy(p, c.in[c.pos:])
+	avail := c.in[c.pos:]
+	if c.chunk > 0 && len(avail) > c.chunk {
+		avail = avail[:c.chunk]
+	}
+	n := copy(p, avail)
 	c.pos += n
 	return n, nil
 }
@@ -148,7 +153,7 @@ func H_C18_tcp_connection() {
 		stream = append(stream, byte(len(raw)>>8), byte(len(raw)))
 		stream = append(stream, raw...)
 	}
-	c := &c18conn{in: stream}
+	c := &c18conn{in: stream, chunk: vParam("chunk")}
 	s.wg.Add(1)
 	s.handleConnection(c)
 	// parse the response stream
